@@ -136,6 +136,18 @@ def run(kind, prob, x0, settings, precond="exact", script=None, bounds=None, pre
         xa = onp.asarray(x)
         return bool(onp.all(xa >= lb) and onp.all(xa <= ub))
 
+    def feas_class(x):
+        """none | ulp (outside by at most 4 ulp of the bound: accumulated rounding of x + z) | gross"""
+        if bounds is None or feas(x):
+            return "none"
+        xa = onp.asarray(x)
+        with onp.errstate(invalid="ignore"):
+            below = onp.where(onp.isfinite(lb), lb - xa, -onp.inf)
+            above = onp.where(onp.isfinite(ub), xa - ub, -onp.inf)
+            scale = onp.maximum(1e-300, onp.maximum(onp.abs(onp.where(onp.isfinite(lb), lb, 0.0)), onp.abs(onp.where(onp.isfinite(ub), ub, 0.0))))
+        worst = float(onp.max(onp.maximum(below, above) / scale))
+        return "ulp" if worst <= 4 * EPS else "gross"
+
     def measure(x):
         g = real.gradient(x)
         if bounds is None:
@@ -189,7 +201,7 @@ def run(kind, prob, x0, settings, precond="exact", script=None, bounds=None, pre
             else:
                 cmp_ = "UP"
             ev.append(dict(e="Report", cmp=cmp_, fin=bool(onp.all(onp.isfinite(x)) and (math.isfinite(v) or script is not None)),
-                           same=(k == prev_k), feas=feas(x)))
+                           same=(k == prev_k), feas=feas(x), feasClass=feas_class(x)))
             prev_k, prev_v, last_k = k, v, k
     if raised is None:
         gs = float(np.linalg.norm(measure(xr)))
@@ -197,7 +209,7 @@ def run(kind, prob, x0, settings, precond="exact", script=None, bounds=None, pre
         if convex_ref is not None:
             agree = "EQ" if float(onp.linalg.norm(onp.asarray(xr) - convex_ref)) <= 1e-6 * (1 + float(onp.linalg.norm(convex_ref))) else "NE"
         ev.append(dict(e="Return", flag=bool(flag), last=(_key(xr) == last_k), gSmall=bool(gs < tol * (1 + 1e-12)),
-                       agree=agree, feas=feas(xr)))
+                       agree=agree, feas=feas(xr), feasClass=feas_class(xr)))
     else:
         ev.append(dict(e="Raised", what=raised[:200]))
     return dict(id=tid, incr=incr, convex=convex_ref is not None, bounded=bounds is not None,
